@@ -570,6 +570,8 @@ NEGATIVE = [
     # spec, cfg, acceptable violated names, quick?
     ("MC_Flight.tla", "MC_NegNoCopy.cfg", ("OwnCopy",), True),
     ("MC_Flight.tla", "MC_NegRefusal.cfg", ("HoldersRunning", "RefusalHoldsNothing", "SlotsBalanced", "SlotAccounting"), True),
+    ("MC_Flight.tla", "MC_NegCapShared.cfg", ("CapacityPrivate",), True),
+    ("MC_Flight.tla", "MC_NegCapSharedZone.cfg", ("CapacityPrivate",), False),
     ("MC_Flight.tla", "MC_NegId.cfg", ("OwnId_",), False),
     ("MC_Flight.tla", "MC_NegRetire.cfg", ("LiveRegistered",), False),
     ("MC_Flight.tla", "MC_NegWedge.cfg", ("CancelledLeaves", "temporal"), False),
@@ -582,8 +584,8 @@ NEGATIVE = [
 
 
 def model_check_jobs(ctx, thorough):
-    flight_q = ["MC_Forget2.cfg", "MC_Slots2.cfg"]
-    flight_t = ["MC_Cancel2s.cfg", "MC_SlotsZ2.cfg", "MC_Cancel2.cfg", "MC_SlotsZ2c.cfg", "MC_All3.cfg", "MC_Live2.cfg", "MC_LiveSilent2.cfg"]
+    flight_q = ["MC_Forget2.cfg", "MC_Slots2.cfg", "MC_CapPrivRes.cfg"]
+    flight_t = ["MC_CapPrivZone.cfg", "MC_Cancel2s.cfg", "MC_SlotsZ2.cfg", "MC_Cancel2.cfg", "MC_SlotsZ2c.cfg", "MC_All3.cfg", "MC_Live2.cfg", "MC_LiveSilent2.cfg"]
     brk_q, brk_t = ["MC_BrkSeqS.cfg", "MC_BrkConcS.cfg"], ["MC_BrkSeq.cfg", "MC_BrkConc.cfg"]
 
     def mc(spec, cfg, w, cov):
@@ -647,7 +649,7 @@ CLASS_OF = {
     "caller-never-returned": "C11", "cancelled-caller-wedged": "C11", "foreign-cancellation": "C11",
     "slots-not-released": "C11", "waiter-not-served": "C11", "stale-flight": "C11", "flight-not-forgotten": "C11",
     "attempt-without-slot": "C11", "zone-negative": "C11", "Answered": "C11", "FreshFlight": "C11", "CtxPrivate": "C11",
-    "SlotsBalanced": "C11", "Forgotten": "C11",
+    "SlotsBalanced": "C11", "Forgotten": "C11", "CapacityPrivate": "C11",
 }
 
 
@@ -709,6 +711,7 @@ def run_tier(ctx):
     res = ctx.go_driver("./x11fl", "TestAll", inp, name="x11fl_all", timeout=2400)
     filter_result(ctx, res)
     ctx.take_driver_result(res, "")
+    capacity_private(ctx, thorough)
     ctx.cov["replay"]["drivers"] = {"drift": res["drift"], "drift_notes": res.get("drift_notes", []), "skipped": res.get("skipped", [])}
     if res.get("skipped"):
         raise vf.MachineryError("drivers skipped: %s" % res["skipped"][:3])
@@ -718,6 +721,27 @@ def run_tier(ctx):
         return
     breaker_result(ctx, res, br_infos, brk_trace, thorough)
     flight_stress_result(ctx, res, traces, thorough)
+
+
+def capacity_private(ctx, thorough, variants=("res", "zone")):
+    """Directed histories = TLC's counter-examples to CapacityPrivate under the as-built reading (MC_NegCapShared /
+    MC_NegCapSharedZone), forced on the real groupLookup through the repository's gate at the start of the leader
+    closure: a follower joins before the leader's slot check, the leader is refused."""
+    res = ctx.go_driver("./x11fl", "TestCapacityPrivate", {"variants": list(variants), "rounds": 6 if thorough else 2},
+                        name="x11fl_cappriv", timeout=600)
+    filter_result(ctx, res)
+    ctx.take_driver_result(res, "")
+    c = res.get("counters", {})
+    if res.get("skipped"):
+        raise vf.MachineryError("capacity-privacy histories did not happen: %s" % res["skipped"][:3])
+    for v in variants:
+        if c.get("cappriv_leader_refused_" + v, 0) == 0:
+            raise vf.MachineryError("capacity-privacy stage is vacuous: the leader was never refused a %s slot (%s)" % (v, c))
+    if c.get("cappriv_follower_joined_before_slot_check", 0) == 0:
+        raise vf.MachineryError("capacity-privacy stage is vacuous: no follower joined before the slot check (%s)" % c)
+    ctx.log("capacity privacy: follower joined before the slot check %d times, regrouped %d, answered after regrouping %d" % (
+        c.get("cappriv_follower_joined_before_slot_check", 0), c.get("cappriv_follower_regrouped", 0),
+        c.get("cappriv_follower_answered_after_regroup", 0)))
 
 
 def run(ctx, replay):
@@ -750,6 +774,9 @@ def replay_file(ctx, path):
                "behaviours": [rp["behaviour"]] if drv == "pool-replay" else [], "v6": drv == "v6-pool",
                "v6Cap": rp.get("v6Cap", 2), "v6Jobs": rp.get("jobs", 3) if drv == "v6-pool" else 0}
         res = ctx.go_driver("./x11fl", "TestPoolReplay", inp, name="replay_pool", timeout=300)
+    elif drv == "cappriv":
+        res = ctx.go_driver("./x11fl", "TestCapacityPrivate", {"variants": [rp.get("variant", "res")], "rounds": 1},
+                            name="replay_cappriv", timeout=300)
     else:
         raise vf.MachineryError("replay file %s: unknown driver %r" % (path, drv))
     ctx.take_driver_result(res, "[replay] ")
